@@ -5163,7 +5163,8 @@ func readOfficialHeader(buf []byte) (size uint32, containerTyper func(index uint
 	}
 
 	// descriptive header
-	if pos+2*2*int(size) >= len(buf) {
+	// container data must follow the key-cardinality pairs, unless there are none
+	if size > 0 && pos+2*2*int(size) >= len(buf) {
 		err = fmt.Errorf("malformed bitmap, key-cardinality slice overruns buffer at %d", pos+2*2*int(size))
 		return size, containerTyper, header, pos, haveRuns, err
 	}
